@@ -263,7 +263,7 @@ inline bool exec(Env& e, const Op& op) {
       e.pushM(Manifold::Revolve(e.x(A(0)).Translate(vec2(U(A(3), 0, 1.5), 0)).ToPolygons(), 3 + (int)((A(1) % 40 + 40) % 40),
                                 A(2) % 3 == 0 ? 360.0 : U(A(2), 30, 360)));
   } else if (n == "cellrow") {
-    int M = 1 + (int)(((A(0) % 6000) + 6000) % 6000), K = 1 + (int)(((A(1) % 32) + 32) % 32);
+    int M = 1 + (int)(((A(0) % 60000) + 60000) % 60000), K = 1 + (int)(((A(1) % 32) + 32) % 32);
     e.pushM(Manifold(cell_mesh(M, K, (int)(A(2) % 3))));
   } else if (n == "hullpts") {
     Rng r((uint64_t)A(1) * 31 + 7);
